@@ -33,6 +33,20 @@ class Canon(ast.NodeTransformer):
             n.body, n.orelse = n.orelse, n.body
         return n
 
+    def visit_UnaryOp(self, n):
+        """N17b  `not any(not A or not B for ...)` is `all(A and B for ...)` (and `not all(not A ...)` is `any(A ...)`): the quantifier
+        form of De Morgan, taken only when the element is written negatively"""
+        self.generic_visit(n)
+        if isinstance(n.op, ast.Not) and isinstance(n.operand, ast.Call) and isinstance(n.operand.func, ast.Name) and n.operand.func.id in ("any", "all") \
+                and len(n.operand.args) == 1 and not n.operand.keywords and isinstance(n.operand.args[0], (ast.GeneratorExp, ast.ListComp)):
+            comp = n.operand.args[0]
+            pos = positive_form(comp.elt)
+            if pos is not None:
+                comp.elt = pos
+                n.operand.func.id = "all" if n.operand.func.id == "any" else "any"
+                return n.operand
+        return n
+
     def visit_Compare(self, n):
         self.generic_visit(n)
         if len(n.ops) == 1 and type(n.ops[0]) in MIRROR and isinstance(n.left, ast.Constant) and not isinstance(n.comparators[0], ast.Constant) \
